@@ -50,7 +50,8 @@ func rayIntersectsTri(tri intersectingTri, ray geometry.Ray, minDistance, maxDis
 		return false
 	}
 
-	if tVal > maxDistance {
+	// tVal is measured from ray.At(minDistance), maxDistance from the ray origin
+	if tVal+minDistance > maxDistance {
 		return false
 	}
 
